@@ -176,7 +176,8 @@ CHECKS = {
               "(PermLaws: THRU items are maximal stretches of adjacent +1 steps, expansion gives the ids in the given order) through SPOINT "
               "(list and ndarray), SET (two widths) and CSUPER. Mode `ints`: the cell of every integer of a wrapped list (wtnasints, start field "
               "2..9 x 0..27 integers; IntLaws: no cell skipped or used twice, fields 2..9, line count) - the card's fields must be the given "
-              "integers in order (layout itself is reported as a spec deviation). USET tables of 2-6 grids whose input / output systems are drawn from basic "
+              "integers in order (layout itself is reported as a spec deviation). Mode `layouts` (spec deviations only): field layouts of "
+              "RBE2 / MPC / TABDMP1 / CONM2 / TLOAD1 / TLOAD2 written by their writers and read by the generic card reader. USET tables of 2-6 grids whose input / output systems are drawn from basic "
               "and a CORD2R <- CORD2C <- CORD2S chain in any arrangement go through uset2bulk / bulk2uset (same grids, locations, transforms) "
               "and mkcordcardinfo / wtcoordcards / rdcord2cards (every system read back = the one in the table). The written text is also parsed by a neutral fixed-column cell splitter so that a compensating "
               "writer+reader pair of bugs is still seen."),
